@@ -2359,7 +2359,8 @@ PREFIX (_translate) (region_type_t *region, int x, int y)
 	{
 	    /* empty extents tell validate() that the list is unchecked */
 	    region->extents.x1 = region->extents.x2 = 0;
-	    validate (region);
+	    if (!validate (region))
+		pixman_break (region);
 	}
     }
 
